@@ -121,6 +121,35 @@ class Run:
             raise Infra("dead driver: %s produced no records" % driver)
         return info
 
+    def repo_test_traces(self, pkg, outdir, run_filter=None, timeout=900):
+        """Run the repository's OWN tests of one package with the hooks on (-tags verif) so that every scheduler they build
+        writes its trace (test/verif_trace_test.go); returns the concatenated ndjson path."""
+        env = dict(os.environ, **GOENV)
+        env["VERIF_SCHED_TRACE"] = outdir
+        env["VERIF_SKIP_RAMPUP"] = "1"
+        cmd = ["go", "test", "-tags", "verif", "-vet=off", "-count=1", pkg]
+        if run_filter:
+            cmd += ["-run", run_filter]
+        t = time.time()
+        try:
+            r = subprocess.run(cmd, cwd=REPO, env=env, stdout=subprocess.PIPE, stderr=subprocess.STDOUT, text=True, timeout=timeout)
+        except subprocess.TimeoutExpired:
+            raise Infra("repository tests %s timed out" % pkg)
+        files = sorted(f for f in os.listdir(outdir) if f.endswith(".ndjson")) if os.path.isdir(outdir) else []
+        if not files:
+            raise Infra("repository tests %s wrote no scheduler trace (rc=%d):\n%s" % (pkg, r.returncode, r.stdout[-2000:]))
+        out = os.path.join(outdir, "all-schedulers.ndjson.trace")
+        n = 0
+        with open(out, "w") as o:
+            for f in files:
+                with open(os.path.join(outdir, f)) as fh:
+                    for line in fh:
+                        o.write(line)
+                        n += 1
+        self.cov["drivers"].append(dict(driver="repository tests %s (-tags verif)" % pkg, schedulers=len(files), records=n,
+                                        tests_passed=(r.returncode == 0), wall_s=round(time.time() - t, 2)))
+        return out, (r.returncode == 0), r.stdout[-1500:]
+
     def harness_sharded(self, driver, out, extra=(), shards=8, timeout=3000, env=None):
         """Run a driver whose cases are independent per index (system driver: one random stream per scenario) as `shards`
         parallel processes (-shard k/N) and concatenate their traces."""
